@@ -951,6 +951,14 @@ func (c *Conn) dispatch(fr *FrameHeader) bool {
 			}
 		}
 
+		// And DATA still counts against the connection window. The server
+		// keeps sending on a stream until it sees our RST_STREAM; not handing
+		// that back leaked a request's worth of window per timed-out download
+		// until the connection could not receive anything at all.
+		if fr.Type() == FrameData {
+			c.consumeConnWindow(fr.Len())
+		}
+
 		return false
 	}
 
@@ -1590,9 +1598,6 @@ func (c *Conn) readStream(fr *FrameHeader, r *Ctx) (err error) {
 				fr.Body().(*RstStream).Code(), "stream reset by the server")
 		}
 	case FrameData:
-		c.currentWindow -= int32(fr.Len())
-		currentWin := c.currentWindow
-
 		// A response starts with its header block. DATA that arrives before it
 		// used to be collected and, at END_STREAM, delivered as a 200.
 		if !r.gotHeaders {
@@ -1602,21 +1607,33 @@ func (c *Conn) readStream(fr *FrameHeader, r *Ctx) (err error) {
 		data := fr.Body().(*Data)
 		if data.Len() != 0 && err == nil {
 			res.AppendBody(data.Data())
+		}
 
-			// let's send the window update
+		// The whole frame counts against the stream's window, padding
+		// included, so a frame that is all padding is paid back too.
+		if fr.Len() != 0 && err == nil {
 			c.updateWindow(fr.Stream(), fr.Len())
 		}
 
-		if currentWin < c.maxWindow/2 {
-			nValue := c.maxWindow - currentWin
-
-			c.currentWindow = c.maxWindow
-
-			c.updateWindow(0, int(nValue))
-		}
+		c.consumeConnWindow(fr.Len())
 	}
 
 	return err
+}
+
+// consumeConnWindow accounts for a DATA frame against the connection-level
+// receive window and hands the space back once half of it has gone. Every DATA
+// frame counts, whether or not anybody is still waiting for its stream.
+func (c *Conn) consumeConnWindow(n int) {
+	c.currentWindow -= int32(n)
+
+	if c.currentWindow < c.maxWindow/2 {
+		nValue := c.maxWindow - c.currentWindow
+
+		c.currentWindow = c.maxWindow
+
+		c.updateWindow(0, int(nValue))
+	}
 }
 
 func (c *Conn) updateWindow(streamID uint32, size int) {
